@@ -239,6 +239,7 @@ class Vector(object):
                        accept_nan=self.accept_nan)
 
         clone.values = self.values.copy()
+        clone._hitbounds = self.hitbounds
 
         return clone
 
